@@ -1,8 +1,173 @@
-(* C05 — placeholder while the proofs are being written *)
+(* C05 — Deletion removes exactly the entity, its descendants and all references to them; refused when allow_delete is off.
+   Only statements, each closed by [exact] (short glue allowed) and followed by Print Assumptions.
+
+   [run c init h] is the state after history h (any list of create / add data / property group / allow_delete /
+   remove through workspace / remove through parent / drop references / listing getter / lookup operations);
+   every theorem quantified over h holds after ALL histories.  [c : cfg] says which loops iterate over a copy;
+   [cur] (generated/C05Cfg.v) is what the checked tree does, read off its source on every run.                     *)
 From GV Require Import Prelude.Base Model.PGroups Model.Removal.
+From GV Require Import Proofs.PGroupsProofs Proofs.RemovalProofs Proofs.RemovalGroups Proofs.RemovalTotal
+                       Proofs.RemovalFile Proofs.RemovalWitness.
 From GVgen Require Import C05Cfg.
 
-Theorem C05_refused_changes_nothing : forall c w e f,
-  adel (E w e) = false -> remove_entity c (S f) w e = (w, Refused).
-Proof. intros c w e f H. simpl. rewrite H. reflexivity. Qed.
+(* ------------------------------------------------------------------------------------------------------------------
+   0. The checked tree has the repairs (remove_recursively and remove_data_from_groups iterate over a copy, the
+      property-group listing survives dead groups).  Fails to compile on a tree that lacks one of them.            *)
+Theorem C05_checked_tree_is_repaired : cur = repaired.
+Proof. reflexivity. Qed.
+Print Assumptions C05_checked_tree_is_repaired.
+
+(* ------------------------------------------------------------------------------------------------------------------
+   1. Invariant of all histories: parents/children agree, children lists have no repeats, identifiers grow downwards,
+      property groups are children of their object, have distinct identifiers, list each member once, are never
+      empty and list only data created under their object.                                                          *)
+Theorem C05_reachable_states_well_formed : forall c h, wf (run c init h) /\ pginv (run c init h).
+Proof. exact reachable_inv. Qed.
+Print Assumptions C05_reachable_states_well_formed.
+
+(* ------------------------------------------------------------------------------------------------------------------
+   2. remove_exact (tree level, any loop variant): after ws.remove_entity(e) succeeded, an entity (other than a
+      property group) is attached to the root iff it was and is not in the subtree of e; every surviving entity other
+      than e's parent has exactly the record it had (children, property groups, flags); the parent keeps its other
+      children, in order.                                                                                            *)
+Theorem C05_remove_exact : forall c h e w',
+  let w := run c init h in
+  step c w (ORemoveWs e) = (w', Ok) ->
+  let p := par (E w e) in
+  (forall x, ekind (E w x) <> KPG -> (attachedb w' x = true <-> attachedb w x = true /\ ~ desc w e x))
+  /\ (forall x, attachedb w' x = true -> x <> p -> E w' x = E w x)
+  /\ (forall x, ekind (E w x) <> KPG -> (In x (ch (E w' p)) <-> In x (ch (E w p)) /\ x <> e))
+  /\ sub (ch (E w' p)) (ch (E w p)).
+Proof. exact remove_exact. Qed.
+Print Assumptions C05_remove_exact.
+
+(* 3. file level, with the repaired remove_recursively: the flat containers lose exactly the nodes of the subtree *)
+Theorem C05_ws_removal_file_exact : forall c h e w',
+  snap_ch c = true ->
+  let w := run c init h in
+  step c w (ORemoveWs e) = (w', Ok) -> ekind (E w e) <> KPG ->
+  (forall x, ekind (E w x) <> KPG -> (In x (flat w') <-> In x (flat w) /\ ~ desc w e x))
+  /\ sub (flat w') (flat w) /\ sub (links w') (links w).
+Proof. exact ws_removal_file_exact. Qed.
+Print Assumptions C05_ws_removal_file_exact.
+
+Theorem C05_ws_removal_file_exact_checked_tree : ws_file_exact_full cur.
+Proof. exact (ws_file_exact_repaired cur eq_refl). Qed.
+Print Assumptions C05_ws_removal_file_exact_checked_tree.
+
+(* REFUTED for the pre-repair loop (`for child in entity.children` while ObjectBase.remove_children shrinks the list):
+   object with data children a,b,c,d -> the nodes of b and d stay.  Kept as the record of the repaired defect. *)
+Theorem C05_old_rec_refuted : forall c, snap_ch c = false -> ~ ws_file_exact_full c.
+Proof. exact old_rec_refuted. Qed.
+Print Assumptions C05_old_rec_refuted.
+
+(* REFUTED, every variant: removal through the parent leaves the node of e in its flat container (open finding
+   via-parent-leaves-flat-node); it goes only after the caller dropped its references AND a listing getter ran. *)
+Theorem C05_file_exact_via_parent_refuted : forall c, ~ file_exact_via_parent_full c.
+Proof. exact file_exact_via_parent_refuted. Qed.
+Print Assumptions C05_file_exact_via_parent_refuted.
+
+(* ------------------------------------------------------------------------------------------------------------------
+   4. no_dangling: after a data set is removed (either entry point) no property group of any object lists it.
+      Full statement: holds for the snapshot loop, is false for the pinned loop; for the pinned loop the exact
+      condition is [no_skip] (no group that becomes empty is immediately followed by a group listing the data).     *)
+Theorem C05_no_dangling_repaired : forall c, snap_pg c = true -> no_dangling_full c.
+Proof. exact no_dangling_repaired. Qed.
+Print Assumptions C05_no_dangling_repaired.
+
+Theorem C05_no_dangling_checked_tree : no_dangling_full cur.
+Proof. exact (no_dangling_repaired cur eq_refl). Qed.
+Print Assumptions C05_no_dangling_checked_tree.
+
+Theorem C05_no_dangling_refuted : ~ no_dangling_full pinned.
+Proof. exact no_dangling_refuted. Qed.
+Print Assumptions C05_no_dangling_refuted.
+
+Theorem C05_no_dangling_partial : forall c h e entry w',
+  let w := run c init h in
+  ekind (E w e) = KData -> entry = ORemoveWs e \/ entry = ORemoveParent e ->
+  step c w entry = (w', Ok) ->
+  snap_pg c = true \/ no_skip e (pgs (E w (par (E w e)))) = true ->
+  forall o g l, In (g, l) (pgs (E w' o)) -> ~ In e l.
+Proof. exact no_dangling_side. Qed.
+Print Assumptions C05_no_dangling_partial.
+
+Theorem C05_no_dangling_iff : forall c h e entry w',
+  snap_pg c = false ->
+  let w := run c init h in
+  ekind (E w e) = KData -> entry = ORemoveWs e \/ entry = ORemoveParent e ->
+  step c w entry = (w', Ok) ->
+  dangling e (pgs (E w' (par (E w e)))) = negb (no_skip e (pgs (E w (par (E w e))))).
+Proof. exact no_dangling_exact. Qed.
+Print Assumptions C05_no_dangling_iff.
+
+(* the list-level content of the above: what the two loops compute on any well-formed group list *)
+Theorem C05_pinned_loop_characterised : forall d gs, grp_ok gs ->
+  dangling d (scrub d gs) = negb (no_skip d gs) /\ (no_skip d gs = true -> scrub d gs = scrub_spec d gs).
+Proof. intros d gs OK. split; [apply scrub_dangling_iff; exact OK | apply scrub_eq_spec; exact OK]. Qed.
+Print Assumptions C05_pinned_loop_characterised.
+
+Theorem C05_snapshot_loop_meets_spec : forall d gs, NoDup (map fst gs) -> scrub_snap d gs = scrub_spec d gs.
+Proof. exact scrub_snap_eq_spec. Qed.
+Print Assumptions C05_snapshot_loop_meets_spec.
+
+(* the specification removes exactly d: every group keeps its other members in order, emptied groups disappear *)
+Theorem C05_spec_exact : forall d gs g l,
+  (In (g, l) (scrub_spec d gs) -> exists l0, In (g, l0) gs /\ l = remove_first d l0 /\ l <> [])
+  /\ (In (g, l) gs -> remove_first d l <> [] -> In (g, remove_first d l) (scrub_spec d gs)).
+Proof. intros d gs g l. split; [apply spec_members | apply spec_keeps]. Qed.
+Print Assumptions C05_spec_exact.
+
+(* the iteration bound of the index-stepping loop is never what stops it *)
+Theorem C05_loop_bound_irrelevant : forall k m d gs i,
+  length gs <= i + k -> scrub_loop (k + m) d gs i = scrub_loop k d gs i.
+Proof. intros k m d gs i. apply scrub_loop_fuel. Qed.
+Print Assumptions C05_loop_bound_irrelevant.
+
+(* ------------------------------------------------------------------------------------------------------------------
+   5. refusal: allow_delete off -> UserWarning, and the state is literally unchanged                                 *)
+Theorem C05_refused_changes_nothing : forall c w e,
+  attachedb w e = true -> e <> 0 -> adel (E w e) = false -> step c w (ORemoveWs e) = (w, Refused).
+Proof. exact refused_changes_nothing. Qed.
 Print Assumptions C05_refused_changes_nothing.
+
+(* recorded finding refused-midway-partial-removal: a protected DESCENDANT makes the request fail after part of the
+   subtree is gone (group 1 with objects 2 and 3, 3 protected: node 2 is deleted, then UserWarning) *)
+Theorem C05_protected_descendant_partial_effect :
+  forall c, snd (step c (run c init h_protected) (ORemoveWs 1)) = Refused
+       /\ flat (run c init h_protected) = [0; 1; 2; 3]
+       /\ flat (fst (step c (run c init h_protected) (ORemoveWs 1))) = [0; 1; 3].
+Proof. exact protected_descendant_partial_effect. Qed.
+Print Assumptions C05_protected_descendant_partial_effect.
+
+(* ------------------------------------------------------------------------------------------------------------------
+   6. survivors usable: in every reachable state a removal of an attached entity through the workspace ends with
+      Ok or Refused (never with an exhausted bound or an error), with Ok when nothing below it is protected; removal
+      through the parent always succeeds.  (Copy of a survivor: compared with the implementation on every case,
+      copy_ok in Model/Removal.v; with the snapshot loop no stale member can arise, theorem 4.)                      *)
+Theorem C05_survivors_removal_total : forall c h x,
+  let w := run c init h in
+  attachedb w x = true -> x <> 0 ->
+  (snd (step c w (ORemoveWs x)) = Ok \/ snd (step c w (ORemoveWs x)) = Refused)
+  /\ ((forall y, desc w x y -> adel (E w y) = true) -> snd (step c w (ORemoveWs x)) = Ok)
+  /\ snd (step c w (ORemoveParent x)) = Ok.
+Proof. exact removal_total. Qed.
+Print Assumptions C05_survivors_removal_total.
+
+(* ------------------------------------------------------------------------------------------------------------------
+   non-vacuity: histories that satisfy the hypotheses above, with the values the theorems talk about                *)
+Example C05_nonvacuous_remove_ws :
+  forall c, snd (step c (run c init h_example) (ORemoveWs 1)) = Ok
+       /\ flat (run c init h_example) = [0; 1; 2; 3; 4; 7; 8]
+       /\ (snap_ch c = true -> flat (fst (step c (run c init h_example) (ORemoveWs 1))) = [0; 7; 8]).
+Proof. exact example_remove_ws. Qed.
+
+Example C05_nonvacuous_remove_data :
+  forall c, snd (step c (run c init h_example) (ORemoveWs 3)) = Ok
+       /\ pgs (E (run c init h_example) 2) = [(5, [3; 4]); (6, [3])]
+       /\ no_skip 3 (pgs (E (run c init h_example) 2)) = true
+       /\ pgs (E (fst (step c (run c init h_example) (ORemoveWs 3))) 2) = [(5, [4])].
+Proof. exact example_remove_data. Qed.
+
+Example C05_nonvacuous_witness_lists : grp_ok witness_gs /\ scrub 0 witness_gs = [(2, [0; 7]); (3, [8])].
+Proof. split; [exact witness_ok | exact witness_dangles]. Qed.
